@@ -16,14 +16,14 @@ void h_w_add_item_to_array(void)
         cJSON *old_child = w_parent->child;
         int which = nondet_int();
         r = add_item_to_array(which == 0 ? NULL : w_parent, which == 0 ? item : (which == 1 ? NULL : w_parent));
-        __CPROVER_assert(!r, "C06 refused: NULL argument or adding a container to itself");
+        __CPROVER_assert(r == 0, "C06 refused: NULL argument or adding a container to itself");
         __CPROVER_assert(w_parent->child == old_child && item->next == NULL && item->prev == NULL, "C06 refused call changes nothing");
         if (w_n > 0) { __CPROVER_assert(w_nodes[0]->prev == w_nodes[w_n - 1] && w_nodes[w_n - 1]->next == NULL, "C06 refused call leaves the chain alone"); }
         VF_COVER(!r);
         return;
     }
     r = add_item_to_array(w_parent, item);
-    __CPROVER_assert(r, "C06 append succeeds");
+    __CPROVER_assert(r == 1, "C06 append succeeds (returns exactly true)");
     if (w_n == 0)
     {
         __CPROVER_assert(w_parent->child == item && item->prev == item && item->next == NULL, "C06 first child: back link designates itself");
